@@ -1,0 +1,26 @@
+//! Verification hooks, compiled only with `--cfg h3_verif`.
+//!
+//! Named pre-emption points placed between individual shared-state operations. They do nothing
+//! unless an external monitor installs a callback; the monitor uses them to park the calling
+//! thread and enumerate interleavings deterministically.
+
+use std::sync::{Arc, RwLock};
+
+/// Callback invoked at every pre-emption point with the point's positional name.
+pub type PreemptCallback = Arc<dyn Fn(&'static str) + Send + Sync>;
+
+static PREEMPT: RwLock<Option<PreemptCallback>> = RwLock::new(None);
+
+/// Install (or remove) the pre-emption callback.
+pub fn set_preempt(cb: Option<PreemptCallback>) {
+    *PREEMPT.write().unwrap_or_else(|e| e.into_inner()) = cb;
+}
+
+/// A pre-emption point. No-op unless a callback is installed.
+#[inline]
+pub fn preempt(point: &'static str) {
+    let cb = PREEMPT.read().unwrap_or_else(|e| e.into_inner()).clone();
+    if let Some(cb) = cb {
+        cb(point);
+    }
+}
